@@ -231,6 +231,11 @@ class Interp(object):
         if isinstance(node.op, ast.UAdd):
           return Const(+v.v)
       return Sym(norm(node), node)
+    if isinstance(node, ast.IfExp):
+      t = self.decided(node.test, st)
+      if t is not None:
+        return self.value(node.body if t else node.orelse, st)
+      return Sym(self.subst_text(node, st), node)
     if isinstance(node, (ast.BoolOp, ast.Compare, ast.UnaryOp)):
       t = self.decided(node, st)
       if t is not None:
